@@ -145,7 +145,32 @@ def fault_case(seed, i, engine):
                      compare=lambda op: op != "stream")
 
 
+def slow_partner_case(seed, i, engine):
+    """one partition's worker fails for good (after its three attempts, ~5 s) WHILE the worker of the other partition is still
+    scanning (a slow region: every Next takes 900 ms): the stream's terminator - exactly one, carrying the error - comes after
+    the last batch of every worker; nothing is sent on the stream afterwards (a worker that outlives the stream would send on
+    a closed channel: the process dies) and the node keeps serving."""
+    r = rng_for(seed, "c13slow/%d" % i)
+    keys = sorted(r.sample([k for k in KEY_POOL if b"events" not in k], 5))
+    sh = hist.Shadow()
+    body = []
+    for k in keys:
+        body += hist.gen_writes(r, sh, 1, [k], p_ok=1.0)
+    a, b = PREFIX + b"/", PREFIX + b"0"
+    border = enc(keys[2], 0)
+    lines = [hist.cfg_line(engine, splits=hx(border))] + body + ["rev",
+             "iterfault 1 from=%s" % hx(enc(a, 0)), "iterslow 900 from=%s" % hx(border),
+             "echo faulted-stream", "stream %s %s %d" % (hx(enc(a, 0)), hx(enc(b, 0)), sh.dealt),
+             "iterslow 0 from=00", "iterfault 0", "sleep 2500", "list %s %s 0 0" % (hx(a), hx(b)), "count %s %s" % (hx(a), hx(b))]
+    return core.Case("backend", lines, {"engine": engine, "borders": [border], "adv": [], "fault": True, "slowpartner": True},
+                     compare=lambda op: op != "stream")
+
+
 def fault_oracle(case):
+    for i, out in enumerate(case.impl or []):
+        if out.startswith("CRASHED") or out == "TIMEOUT":
+            return ("the node process died / hung at line %d (`%s`) of a script in which one partition of a streamed range cannot be "
+                    "read: %s" % (i + 1, case.lines[i] if i < len(case.lines) else "?", out[:300]), "process-died-after-faulted-stream")
     faulted = False
     for i, (line, out) in enumerate(zip(case.lines, case.impl)):
         t, o = line.split(), out.split()
@@ -215,6 +240,7 @@ def check(rep, tier, seed):
     cases += [big_case(seed, i, ["memkv", "tikv", "badger"][i % 3]) for i in range(4 if tier == "quick" else 12)]
     faults = [fault_case(seed, i, ["memkv", "tikv", "badger"][i % 3]) for i in range(3 if tier == "quick" else 18)]
     cases += faults
+    cases += [slow_partner_case(seed, i, ["memkv", "tikv", "badger"][i % 3]) for i in range(1 if tier == "quick" else 6)]
     cases += [many_regions_case(seed, i) for i in range(1 if tier == "quick" else 4)]
     core.run_cases(cases)
     def pick(c):
